@@ -10,6 +10,8 @@ ADAPT = {"C01/m3": "C01_m3_string_ceil", "C14/m1": "C01_m3_string_ceil", "C10/m2
          "C01/m1": "C01_m1_tag_accepts_n", "C02/m1": "C01_m1_tag_accepts_n", "C10/m1": "C01_m1_tag_accepts_n"} if TAG == "r1" else {}
 if TAG == "r4":
     ADAPT = {"C01/m2": "r4_C01_m2_min_size_by_tag_value", "C19/m1": "r4_C19_m1_flex_item_shift_lsize", "C20/m2": "r4_C20_m2_vec_validate_all_slots"}
+if TAG == "r6":
+    ADAPT = {"C17/m3": "r6_C17_m3_tag_by_position"}
 MANUAL = {("C%02d/m%d" % (p, m)): True for p in (8, 9) for m in (1, 2, 3)} if TAG == "r4" else \
     {"C08/m1": True, "C08/m2": True, "C08/m3": True} if TAG == "r1" else \
     ({"C04/m1": True, "C04/m2": True, "C04/m3": True, "C17/m2": True} if TAG == "r2" else
@@ -55,7 +57,7 @@ for pid in ["C%02d" % i for i in range(1, 21)]:
             "property": pid, "round": TAG, "mutant": m,
             "summary": meta.get("summary"), "breaks": meta.get("breaks"), "needs_to_manifest": meta.get("needs_to_manifest"),
             "files_touched": meta.get("files_touched"),
-            "made_against": "pinned tree 4af8f1a" if TAG == "r1" else ("/repo at 5af399e" if TAG in ("r2", "r3", "r4") else ("/repo at b966117" if TAG == "r5" else "/repo HEAD at the time")),
+            "made_against": "pinned tree 4af8f1a" if TAG == "r1" else ("/repo at 5af399e" if TAG in ("r2", "r3", "r4") else ("/repo at b966117" if TAG == "r5" else ("/repo at ffdac23" if TAG == "r6" else "/repo HEAD at the time"))),
             "confirmed_by_me": {
                 "how": "tools/confirm_seeds.py in a scratch worktree: cargo test --workspace --offline with the patch (must pass), demo with the patch (must fail), demo without (must pass)",
                 "on_fixed_tree": rh if rh else ("manual run, see DESIGN.md" if MANUAL.get(sd) else None),
